@@ -85,6 +85,39 @@ def graftEntries (g : Node → Node) : List (Key × Node) → Key → Addr → L
     if k' = k then (k', c.graftAt g rest) :: es else (k', c) :: graftEntries g es k rest
 end
 
+/-! ## C09: what a creation does -/
+
+/-- The reference under which `createHere n seg …` places the new element. -/
+def createdRef (n : Node) (seg : PSeg) : Ref :=
+  match n with
+  | .seq _ _ => .idx (match intOfSeg seg with | some i => i.toNat | none => 0)
+  | _ => .key (match seg with | .key s => .str s | .index _ => .int 0)
+
+/-- `Follows d segs q n`: every segment of `segs` resolves to an existing child (`lookSeg … = found`),
+one after the other from `d`, none of the children entered is `null`; the walk ends at address `q`,
+node `n`. -/
+inductive Follows : Node → List PSeg → Addr → Node → Prop
+  | here (d : Node) : Follows d [] [] d
+  | step {d : Node} {seg : PSeg} {ref : Ref} {c : Node} {segs : List PSeg} {q : Addr} {n : Node} :
+      lookSeg d seg = .found ref → d.child? ref = some c → c ≠ .scalar none .null →
+      Follows c segs q n → Follows d (seg :: segs) (ref :: q) n
+
+/-- The three things a successful `_get_optional_nodes` over a straight-line path can have done. -/
+inductive CreateOutcome (leaf : Scalar) (d : Node) (segs : List PSeg) (r : Created) : Prop
+  /-- the whole path exists: nothing changes, the node at its end is handed out -/
+  | present (n : Node) : Follows d segs r.addr n → r.doc = d → CreateOutcome leaf d segs r
+  /-- a `null` on the way is handed out whatever segments remain; nothing changes (finding C09-F2) -/
+  | nullRelay (pre : List PSeg) (seg : PSeg) (rest : List PSeg) (q : Addr) (n : Node) (ref : Ref) :
+      segs = pre ++ seg :: rest → Follows d pre q n → lookSeg n seg = .found ref →
+      n.child? ref = some (.scalar none .null) → r.doc = d → r.addr = q ++ [ref] →
+      CreateOutcome leaf d segs r
+  /-- `pre` exists and ends at the node `n` (address `q`) in which `seg` is missing: the document is
+  the original with exactly that node replaced by `createHere n seg rest` -/
+  | created (pre : List PSeg) (seg : PSeg) (rest : List PSeg) (q : Addr) (n n' : Node) :
+      segs = pre ++ seg :: rest → Follows d pre q n → lookSeg n seg = .missing →
+      createHere n seg rest leaf = .ok n' → r.doc = d.graftAt (fun _ => n') q →
+      r.addr = q ++ createdRef n seg :: fillAddr rest → CreateOutcome leaf d segs r
+
 /-! Plain data: the document with every anchor name erased (aliases are already expanded in
 `Node`). -/
 mutual
